@@ -41,12 +41,12 @@ const (
 	bvHonest              // control: identity key of M, signature by M
 	nNoiseVariants
 	// TLS only
-	bvExtAbsent     = iota - 1 // certificate without the libp2p extension
-	bvExtDup                   // two libp2p extensions: genuine one for M first, forged one for V second
-	bvExtDupRev                // forged one for V first, genuine one for M second
-	bvChain2                   // genuine leaf for M followed by a second certificate
-	bvChain0                   // (client) no certificate at all
-	bvCertSigOther             // genuine extension for M, certificate signed with another key than its own
+	bvExtAbsent    = iota - 1 // certificate without the libp2p extension
+	bvExtDup                  // two libp2p extensions: genuine one for M first, forged one for V second
+	bvExtDupRev               // forged one for V first, genuine one for M second
+	bvChain2                  // genuine leaf for M followed by a second certificate
+	bvChain0                  // (client) no certificate at all
+	bvCertSigOther            // genuine extension for M, certificate signed with another key than its own
 	nTLSVariants
 )
 
